@@ -189,8 +189,22 @@ def _lift_xarray(ctx):
         w.__name__ = getattr(method, "__name__", "w")
         return w
 
-    for name in ("fillna", "where", "integrate", "sum", "mean"):
+    for name in ("fillna", "where", "integrate", "sum"):
         ctx.patch(xarray.DataArray, name, lifted(getattr(xarray.DataArray, name)))
+
+    orig_mean = xarray.DataArray.mean
+
+    def mean(self, dim=None, *a, skipna=None, **k):
+        # xarray's object-dtype nanmean casts to float; express the same definition (sum of the non-missing values
+        # over their count) through xarray's own sum/count, which work elementwise on object arrays
+        if self.dtype != object:
+            return orig_mean(self, dim, *a, skipna=skipna, **k)
+        if skipna is False:
+            n = self.sizes[dim] if isinstance(dim, str) else int(np.prod([self.sizes[d] for d in (dim or self.dims)]))
+            return self.sum(dim, skipna=False) / n
+        return self.sum(dim, skipna=True) / self.count(dim)
+
+    ctx.patch(xarray.DataArray, "mean", mean)
 
 
 def float_grid(kind, nf):
